@@ -4,10 +4,8 @@
 //!   vp-harness worker <ID> <tier> <seed> <i> <n>      one shard (internal)
 //!   vp-harness replay <path>                          re-run one saved case, library bypassed
 
-mod engine;
-mod props;
-
-use engine::{ShardSummary, Tier, VERIF_ROOT};
+use vp_harness::engine::{self, ShardSummary, Tier, VERIF_ROOT};
+use vp_harness::props;
 use serde_json::{json, Value};
 use std::collections::{BTreeMap, HashSet};
 use std::path::{Path, PathBuf};
@@ -167,7 +165,20 @@ fn parent(id: &str, tier: Tier) -> i32 {
         total.violations.extend(s.violations);
         total.notes.extend(s.notes);
     }
-    let distinct_nontrivial = hashes.len() as u64 + total.nontrivial_exhaustive;
+    // thorough tier: coverage-guided campaign (libFuzzer) for the properties that have a fuzz entry
+    let mut fuzz_new_units = 0u64;
+    if tier == Tier::Thorough && def.fuzz.is_some() && std::env::var("VERIF_NO_FUZZ").is_err() {
+        match fuzz_campaign(def, seed, &mut total, &mut inconclusive) {
+            Some(info) => {
+                fuzz_new_units = info.nontrivial;
+                total.evaluations += info.evaluations;
+                order.push(info.name.clone());
+                subruns.insert(info.name.clone(), info);
+            }
+            None => {}
+        }
+    }
+    let distinct_nontrivial = hashes.len() as u64 + total.nontrivial_exhaustive + fuzz_new_units;
     let known = engine::load_known();
     let mut exit = 0;
     // one VIOLATION line per distinct signature
@@ -246,6 +257,32 @@ fn replay(path: &str) -> i32 {
             return 2;
         }
     };
+    if let Some(id) = Path::new(path).file_name().and_then(|n| n.to_str()).and_then(|n| n.split("-fuzz-").next().filter(|_| n.contains("-fuzz-")).map(|x| x.to_string())).or_else(|| if path.ends_with(".fuzz") { Path::new(path).parent().and_then(|d| d.file_name()).and_then(|n| n.to_str()).map(|x| x.to_string()) } else { None }) {
+        // a libFuzzer artifact: raw bytes for the property's fuzz entry
+        let Some(def) = props::lookup(&id) else {
+            println!("unknown property {id}");
+            return 2;
+        };
+        let Some(f) = def.fuzz else {
+            println!("property {id} has no fuzz entry");
+            return 2;
+        };
+        engine::proc::install_panic_hook();
+        return match engine::proc::catch(|| f(&b)) {
+            Ok(None) => {
+                println!("replay {path}: property {id} holds on this input");
+                0
+            }
+            Ok(Some(v)) => {
+                println!("VIOLATION property={id} replay={path}\n  signature: {}\n  {}", v.signature, v.detail.replace('\n', "\n  "));
+                1
+            }
+            Err(p) => {
+                println!("VIOLATION property={id} replay={path}\n  signature: {id}:panic:{}\n  {p}", p.split(": ").next().unwrap_or("?"));
+                1
+            }
+        };
+    }
     let v: Value = serde_json::from_slice(&b).expect("replay file is JSON");
     let id = v["property"].as_str().expect("property");
     let sub = v["sub"].as_str().expect("sub").to_string();
@@ -271,4 +308,119 @@ fn replay(path: &str) -> i32 {
             1
         }
     }
+}
+
+/// libFuzzer campaign for one property (thorough tier).  Eight independent processes with seeds
+/// derived from VERIF_SEED, fresh corpus directories seeded from /verif/fuzz/seeds/<ID>/, a fixed
+/// number of runs each.  A crash artifact is classified by re-running the property's fuzz entry
+/// in this process; listed known findings are counted, anything else is a violation.
+fn fuzz_campaign(def: &'static props::PropDef, seed: u64, total: &mut ShardSummary, inconclusive: &mut Vec<String>) -> Option<engine::SubrunInfo> {
+    let id = def.id;
+    let t0 = Instant::now();
+    let root = Path::new(VERIF_ROOT);
+    let build = Command::new("cargo")
+        .args(["+nightly", "fuzz", "build", "--fuzz-dir", "/verif/fuzz", "--target-dir", "/verif/target/fuzz", id])
+        .env("CARGO_NET_OFFLINE", "true")
+        .current_dir(root.join("fuzz"))
+        .output();
+    match build {
+        Ok(o) if o.status.success() => {}
+        Ok(o) => {
+            inconclusive.push(format!("fuzz build failed: {}", String::from_utf8_lossy(&o.stderr).lines().rev().take(4).collect::<Vec<_>>().join(" | ")));
+            return None;
+        }
+        Err(e) => {
+            inconclusive.push(format!("cargo fuzz not runnable: {e}"));
+            return None;
+        }
+    }
+    let bin = root.join("target/fuzz/x86_64-unknown-linux-gnu/release").join(id);
+    let run_root = root.join("target/fuzz-run").join(id);
+    let _ = std::fs::remove_dir_all(&run_root);
+    let procs = 8usize;
+    let runs_total: u64 = std::env::var("VERIF_FUZZ_RUNS").ok().and_then(|v| v.parse().ok()).unwrap_or(match id {
+        "C11" => 400_000,
+        _ => 2_000_000,
+    });
+    let mut children = vec![];
+    for k in 0..procs {
+        let dir = run_root.join(format!("p{k}"));
+        let corpus = dir.join("corpus");
+        std::fs::create_dir_all(&corpus).unwrap();
+        if let Ok(rd) = std::fs::read_dir(root.join("fuzz/seeds").join(id)) {
+            for e in rd.flatten() {
+                let _ = std::fs::copy(e.path(), corpus.join(e.file_name()));
+            }
+        }
+        let log = std::fs::File::create(dir.join("log")).unwrap();
+        let c = Command::new(&bin)
+            .arg(&corpus)
+            .args([
+                format!("-runs={}", runs_total / procs as u64),
+                format!("-seed={}", (seed.wrapping_mul(8).wrapping_add(k as u64) % 0x7fff_ffff).max(1)),
+                "-len_control=0".into(),
+                "-max_len=400".into(),
+                "-close_fd_mask=2".into(),
+                "-print_final_stats=1".into(),
+                "-timeout=60".into(),
+                format!("-artifact_prefix={}/", dir.display()),
+            ])
+            .current_dir(&dir)
+            .stdout(log.try_clone().unwrap())
+            .stderr(log)
+            .stdin(std::process::Stdio::null())
+            .spawn();
+        match c {
+            Ok(c) => children.push((k, c)),
+            Err(e) => inconclusive.push(format!("cannot start fuzz target: {e}")),
+        }
+    }
+    let mut info = engine::SubrunInfo { name: "fuzz".into(), kind: "fuzz".into(), bound: format!("libFuzzer target {id}: {procs} processes x {} runs, max_len 400, fresh corpus + fuzz/seeds/{id}; non-trivial = inputs that added coverage (new_units_added)", runs_total / procs as u64), ..Default::default() };
+    engine::proc::install_panic_hook();
+    let known = engine::load_known();
+    for (k, mut c) in children {
+        let st = c.wait();
+        let dir = run_root.join(format!("p{k}"));
+        let log = std::fs::read_to_string(dir.join("log")).unwrap_or_default();
+        for l in log.lines() {
+            if let Some(v) = l.strip_prefix("stat::number_of_executed_units:") {
+                info.evaluations += v.trim().parse::<u64>().unwrap_or(0);
+            }
+            if let Some(v) = l.strip_prefix("stat::new_units_added:") {
+                info.nontrivial += v.trim().parse::<u64>().unwrap_or(0);
+            }
+        }
+        let crashed = !matches!(st, Ok(s) if s.success());
+        if crashed {
+            let arts: Vec<PathBuf> = std::fs::read_dir(&dir).map(|rd| rd.flatten().map(|e| e.path()).filter(|p| p.file_name().and_then(|n| n.to_str()).map_or(false, |n| n.starts_with("crash-") || n.starts_with("timeout-") || n.starts_with("oom-"))).collect()).unwrap_or_default();
+            if arts.is_empty() {
+                inconclusive.push(format!("fuzz process {k} ended abnormally without an artifact: {}", log.lines().rev().take(3).collect::<Vec<_>>().join(" | ")));
+                continue;
+            }
+            for a in arts {
+                let name = a.file_name().unwrap().to_string_lossy().into_owned();
+                if name.starts_with("timeout-") || name.starts_with("oom-") {
+                    inconclusive.push(format!("fuzz process {k}: {name} (slow or large input: inconclusive, not a violation)"));
+                    continue;
+                }
+                let bytes = std::fs::read(&a).unwrap_or_default();
+                let f = def.fuzz.unwrap();
+                let (sig, detail) = match engine::proc::catch(|| f(&bytes)) {
+                    Ok(Some(v)) => (v.signature, v.detail),
+                    Ok(None) => (format!("{id}:fuzz-crash-not-reproducible"), "the artifact does not fail when replayed in the harness".into()),
+                    Err(p) => (format!("{id}:panic:{}", p.split(": ").next().unwrap_or("?").rsplit("/src/").next().unwrap_or("?")), p),
+                };
+                if known.iter().any(|kf| kf.status == "known" && kf.signature == sig) {
+                    *total.known_hits.entry(sig).or_insert(0) += 1;
+                    continue;
+                }
+                let _ = std::fs::create_dir_all(root.join("replays"));
+                let dest = root.join("replays").join(format!("{id}-fuzz-{}", name));
+                let _ = std::fs::copy(&a, &dest);
+                total.violations.push(engine::ViolationRecord { sub: "fuzz".into(), signature: sig, detail, replay: dest.to_string_lossy().into_owned() });
+            }
+        }
+    }
+    info.worker_s = t0.elapsed().as_secs_f64();
+    Some(info)
 }
